@@ -775,3 +775,5 @@ META = {
     "convention `return out, err, <non-zero>`.",
     "more": 'Also decided: the resynchroniser _fix_cwd leaves $PWD alone only after comparing the real paths of the process directory and $PWD, and every normal exit of the command loop body passes it.',
 }
+
+META["more"] += " Every length that bounds or offsets the index into the `dirs` listing is the listing's own, also through helpers that are handed the length."
